@@ -147,7 +147,7 @@ func relocate(c *Case, s *site, donor *ucfg.Config, classes map[string]bool) (re
 	}
 	attach := opts
 	if rl.How == "setchild-meta" {
-		attach = append(append([]ucfg.Option{}, opts...), ucfg.MetaData(ucfg.Meta{Source: relocSource}))
+		attach = append(append([]ucfg.Option{}, opts...), c.metaOpts(relocSource)...)
 	}
 	if rl.Where == "elsewhere" {
 		if err := ucfg.New().SetChild("x", -1, section, attach...); err != nil {
